@@ -5,7 +5,8 @@ Part A (static converters, exhaustive): every valid sparse output for n <= N
     CollectiveAnomalyDetector        every sorted set of disjoint half-open intervals of [0,n] (adjacent, length-1,
                                      touching 0 and n included)
     SubsetCollectiveAnomalyDetector  the same interval sets x every assignment of a non-empty column subset, p <= 3
-  x index in {RangeIndex(0,n), RangeIndex(5,5+n), RangeIndex(0,2n,2), DatetimeIndex, PeriodIndex} x column labels
+  x index in {RangeIndex(0,n), RangeIndex(5,5+n), RangeIndex(0,2n,2), DatetimeIndex, PeriodIndex, sorted integer / datetime index with
+  repeated values} x column labels
   {default ints, strings}.  Checked: sparse_to_dense(y, index, columns) carries exactly `index` and labels POSITION i with
   the segment number / the label of the covering anomaly (0 if none); dense_to_sparse of that dense frame gives y back
   (affected columns compared as sets).  dense_to_sparse is fed the real dense output when that is right and the oracle's
@@ -29,7 +30,7 @@ RULE = ("part A: every valid sparse output of the bound x 5 index types x 2 colu
         "sets x the same grid; a case is non-trivial when the sparse output holds at least one event (so that the dense "
         "labels are not all zero and the inverse has something to find); distinct = (class/detector, n, events, index, columns)")
 
-INDEX_KINDS = ("range0", "range5", "range-step2", "datetime", "period")
+INDEX_KINDS = ("range0", "range5", "range-step2", "datetime", "period", "int-ties", "datetime-ties")      # the last two: sorted, with repeated values
 COLUMN_KINDS = ("default", "strings")
 
 
@@ -46,6 +47,11 @@ def make_index(kind, n):
         return pd.date_range("2021-03-01", periods=n, freq="D")
     if kind == "period":
         return pd.period_range("2021-03", periods=n, freq="M")
+    if kind == "int-ties":          # 0, 0, 1, 1, 2, 2, ...: monotonic but not unique (check_series accepts it): labels are positional, not per index value
+        return pd.Index([i // 2 for i in range(n)], dtype="int64")
+    if kind == "datetime-ties":
+        base = pd.date_range("2021-03-01", periods=(n + 1) // 2 + 1, freq="D")
+        return pd.DatetimeIndex([base[i // 2] for i in range(n)])
     raise ValueError(kind)
 
 
